@@ -21,8 +21,8 @@ META = dict(
         quick=dict(history="K<=3 public calls/cache_clear events (K=4 for one device, one field)", devices="1..2 with symbolic presence per call", fields_symbolic="1..2 per device (the others constant)"),
         thorough=dict(history="K<=4 (K=5 for one device, one field, one function)", devices="1..2", fields_symbolic="1..2", inductive="one run() step from an arbitrary cache state satisfying the representation invariant"),
     ),
-    outside=["more than 2 devices / longer histories (the inductive step harness covers arbitrary history length for one run() call)", "two threads calling concurrently (wrap_numbers holds a lock for the whole update; not explored here)"],
-    labels=["value-is-raw-plus-offsets", "non-decreasing-while-present", "nowrap-false-is-raw", "empty-dict", "inductive-step", "inductive-invariant"],
+    outside=["more than 2 devices / longer histories (the inductive step harness covers arbitrary history length for one run() call)", "more than 2 threads / 2 pre-emptions; races inside one source line"],
+    labels=["value-is-raw-plus-offsets", "non-decreasing-while-present", "nowrap-false-is-raw", "empty-dict", "inductive-step", "inductive-invariant", "threads-equal-a-serial-order"],
 )
 
 
@@ -147,3 +147,37 @@ def inductive(ctx, ndev, nf):
         ctx.prove(ctx.all([v >= 0, ctx.implies(ctx.neg(ctx.eq(v, 0)), d in new and (d, i) in wn.reminder_keys[name].get(d, ()))]), "inductive-invariant")
     for d, keys in list(wn.reminder_keys[name].items()):
         ctx.prove(not keys or d in new, "inductive-invariant")
+
+
+@harness("C10.threads", quick=[dict(P=1)], thorough=[dict(P=2)], timeout_ms=5000)
+def threads(ctx, P):
+    """two threads calling net_io_counters(nowrap=True) at once, each seeing its own kernel snapshot (source-line granularity,
+    at most P pre-emptions): the pair of results equals that of one of the two serial orders"""
+    from psv import sched
+
+    k = simk.Kernel(ctx)
+    s0 = ctx.int("s0", 0, 2**64 - 1)
+    raw = {0: ctx.int("rawA", 0, 2**64 - 1), 1: ctx.int("rawB", 0, 2**64 - 1)}
+    S = sched.Scheduler(ctx, budget=P)
+    cur = {"raw": s0}
+
+    def platform():
+        v = cur["raw"] if S.current is None else raw[S.current]
+        return {"d0": (v, 5, 5, 5, 5, 5, 5, 5)}
+
+    extra = [(_pslinux, "net_io_counters", platform), (_common._wn, "lock", sched.SchedLock(S, False))]
+    with k.installed(extra=extra):
+        psutil.net_io_counters(pernic=True, nowrap=True)                       # history: s0
+        res = S.run([lambda: psutil.net_io_counters(pernic=True, nowrap=True)["d0"][0], lambda: psutil.net_io_counters(pernic=True, nowrap=True)["d0"][0]])
+    for i in (0, 1):
+        ctx.prove(res[i][0] == "ok", "threads-no-exception", detail=f"{res[i][1]!r} pre-emptions {S.trace}")
+    if res[0][0] != "ok" or res[1][0] != "ok":
+        return
+
+    def serial(first, second):
+        off1 = ctx.ite(raw[first] < s0, s0, 0)
+        off2 = off1 + ctx.ite(raw[second] < raw[first], raw[first], 0)
+        out = {first: raw[first] + off1, second: raw[second] + off2}
+        return ctx.all([ctx.eq(res[0][1], out[0]), ctx.eq(res[1][1], out[1])])
+
+    ctx.prove(ctx.any([serial(0, 1), serial(1, 0)]), "threads-equal-a-serial-order", detail=f"pre-emptions {S.trace}")
